@@ -234,7 +234,7 @@ func genC13(seed uint64, i int, tier string) *Scenario {
 	if tier == "thorough" && r.Chance(0.2) {
 		size = r.Range(0, 70)
 	}
-	style := pick(r, []string{StoreMixed, StoreInts, StoreText, StoreMixed})
+	style := pick(r, []string{StoreMixed, StoreInts, StoreText, StoreMixed, StoreMixed, StoreInts, StoreText, StoreMixed, StoreBytes})
 	init := genStore(r, size, style)
 	mode := ModeRow
 	if (i/len(c13Templates))%2 == 1 {
